@@ -138,4 +138,164 @@ theorem rrrr_describes (f : Form) (wa wb wc wd : GpW) (spa spb spc spd : Bool) (
   simp only [describes, Form.matchesTemplate, t, hops, matchOps, m0, m1, m2, m3]
   simp
 
+/-! ### generic helpers for fields of other widths and immediate operand kinds -/
+
+theorem toNat_fieldN (w : BitVec 32) (p s : Nat) (hs : s ≤ 31) :
+    (w.toNat >>> p) % 2 ^ s = ((w >>> p) &&& BitVec.ofNat 32 (2 ^ s - 1)).toNat := by
+  have h1 : 2 ^ s - 1 < 2 ^ 32 := by
+    have : 2 ^ s ≤ 2 ^ 31 := Nat.pow_le_pow_right (by decide) hs
+    omega
+  simp [BitVec.toNat_and, BitVec.toNat_ushiftRight, BitVec.toNat_ofNat, Nat.mod_eq_of_lt h1]
+
+theorem ctx_get_one (fields : List Field) (w : Nat) (pc : BitVec 64) (nm : String) (fld : String) (p s : Nat)
+    (h : fields.filter (·.name == fld) = [⟨fld, [⟨p, 0, s⟩]⟩]) :
+    ({ fields := fields, w := w, pc := pc, name := nm } : Ctx).get fld = some ((w >>> p) % 2 ^ s) := by
+  simp [Ctx.get, fieldGet, h, Field.get]
+
+theorem matchOp_cond (c : Ctx) (fld : String) (v : BitVec 64) (p : Nat) (rest : List Operand)
+    (hlt : v.toNat < 16) (hfield : c.get fld = some (condField v.toNat)) :
+    matchOp c (.cond fld false) (.imm v p :: rest) = some rest := by
+  simp [matchOp, hfield, hlt]
+
+/-! ### conditional select (Rd, Rn, Rm, cond) -/
+
+theorem csel_fields (opc x rd rn rm cond mask value : BitVec 32)
+    (hc : opc &&& 0x001FF3FF#32 = 0#32) (hm : mask &&& 0x001FF3FF#32 = 0#32) (hv : (opc ||| (x <<< 31)) &&& mask = value)
+    (h0 : rd.ult 32#32 = true) (h1 : rn.ult 32#32 = true) (h2 : rm.ult 32#32 = true) (h3 : cond.ult 16#32 = true) :
+    (opc ||| (x <<< 31) ||| (rm <<< 16) ||| (cond <<< 12) ||| (rn <<< 5) ||| (rd <<< 0)) &&& mask = value ∧
+    ((opc ||| (x <<< 31) ||| (rm <<< 16) ||| (cond <<< 12) ||| (rn <<< 5) ||| (rd <<< 0)) >>> 0) &&& 31#32 = rd ∧
+    ((opc ||| (x <<< 31) ||| (rm <<< 16) ||| (cond <<< 12) ||| (rn <<< 5) ||| (rd <<< 0)) >>> 5) &&& 31#32 = rn ∧
+    ((opc ||| (x <<< 31) ||| (rm <<< 16) ||| (cond <<< 12) ||| (rn <<< 5) ||| (rd <<< 0)) >>> 16) &&& 31#32 = rm ∧
+    ((opc ||| (x <<< 31) ||| (rm <<< 16) ||| (cond <<< 12) ||| (rn <<< 5) ||| (rd <<< 0)) >>> 12) &&& 15#32 = cond := by
+  bv_decide
+
+def isCSelForm (f : Form) (wd : GpW) (opcx : BitVec 32) : Bool :=
+  f.ops == [.gp wd "Rd" false, .gp wd "Rn" false, .gp wd "Rm" false, .cond "cond" false] &&
+  f.fields.filter (·.name == "Rd") == [⟨"Rd", [⟨0, 0, 5⟩]⟩] &&
+  f.fields.filter (·.name == "Rn") == [⟨"Rn", [⟨5, 0, 5⟩]⟩] &&
+  f.fields.filter (·.name == "Rm") == [⟨"Rm", [⟨16, 0, 5⟩]⟩] &&
+  f.fields.filter (·.name == "cond") == [⟨"cond", [⟨12, 0, 4⟩]⟩] &&
+  f.freeFields.isEmpty && decide (f.mask < 2 ^ 32) && decide (f.value < 2 ^ 32) &&
+  (BitVec.ofNat 32 f.mask &&& 0x001FF3FF#32 == 0#32) && (opcx &&& BitVec.ofNat 32 f.mask == BitVec.ofNat 32 f.value)
+
+theorem csel_describes (f : Form) (wd : GpW) (opc x : BitVec 32) (o0 o1 o2 : Reg) (cond : BitVec 64) (p : Nat) (pc : BitVec 64)
+    (hf : isCSelForm f wd (opc ||| (x <<< 31)) = true) (hc : opc &&& 0x001FF3FF#32 = 0#32)
+    (h0 : gpOk wd false o0) (h1 : gpOk wd false o1) (h2 : gpOk wd false o2) (hcond : cond.toNat < 16) :
+    describes f [.reg o0, .reg o1, .reg o2, .imm cond p] pc
+      (opc ||| (x <<< 31) ||| (BitVec.ofNat 32 (o2.id % 32) <<< 16) ||| (BitVec.ofNat 32 (condField cond.toNat) <<< 12) |||
+       (BitVec.ofNat 32 (o1.id % 32) <<< 5) ||| (BitVec.ofNat 32 (o0.id % 32) <<< 0)) = true := by
+  simp only [isCSelForm, Bool.and_eq_true, beq_iff_eq, decide_eq_true_eq] at hf
+  obtain ⟨⟨⟨⟨⟨⟨⟨⟨⟨hops, hRd⟩, hRn⟩, hRm⟩, hCo⟩, _hfree⟩, hmlt⟩, hvlt⟩, hm⟩, hv⟩ := hf
+  have hcf : condField cond.toNat < 16 := by unfold condField; omega
+  have hcu : (BitVec.ofNat 32 (condField cond.toNat)).ult 16#32 = true := by
+    simp [BitVec.ult, BitVec.toNat_ofNat]; omega
+  obtain ⟨k1, k2, k3, k4, k5⟩ := csel_fields opc x (BitVec.ofNat 32 (o0.id % 32)) (BitVec.ofNat 32 (o1.id % 32)) (BitVec.ofNat 32 (o2.id % 32))
+    (BitVec.ofNat 32 (condField cond.toNat)) (BitVec.ofNat 32 f.mask) (BitVec.ofNat 32 f.value) hc hm hv
+    (ofNat_mod32_ult _) (ofNat_mod32_ult _) (ofNat_mod32_ult _) hcu
+  generalize hw : (opc ||| (x <<< 31) ||| (BitVec.ofNat 32 (o2.id % 32) <<< 16) ||| (BitVec.ofNat 32 (condField cond.toNat) <<< 12) |||
+       (BitVec.ofNat 32 (o1.id % 32) <<< 5) ||| (BitVec.ofNat 32 (o0.id % 32) <<< 0)) = w at *
+  have t : w.toNat &&& f.mask = f.value := by
+    rw [toNat_and_mask w f.mask hmlt, k1]; simp [BitVec.toNat_ofNat, Nat.mod_eq_of_lt hvlt]
+  have f0 : (w.toNat >>> 0) % 2 ^ 5 = o0.id % 32 := by rw [toNat_field, k2, ofNat_mod32_toNat]
+  have f5 : (w.toNat >>> 5) % 2 ^ 5 = o1.id % 32 := by rw [toNat_field, k3, ofNat_mod32_toNat]
+  have f16 : (w.toNat >>> 16) % 2 ^ 5 = o2.id % 32 := by rw [toNat_field, k4, ofNat_mod32_toNat]
+  have f12 : (w.toNat >>> 12) % 2 ^ 4 = condField cond.toNat := by
+    rw [toNat_fieldN w 12 4 (by decide)]
+    have : (BitVec.ofNat 32 (2 ^ 4 - 1)) = 15#32 := by decide
+    rw [this, k5]; simp [BitVec.toNat_ofNat]; omega
+  have g0 := ctx_get_single f.fields w.toNat pc f.name "Rd" 0 hRd
+  have g5 := ctx_get_single f.fields w.toNat pc f.name "Rn" 5 hRn
+  have g16 := ctx_get_single f.fields w.toNat pc f.name "Rm" 16 hRm
+  have g12 := ctx_get_one f.fields w.toNat pc f.name "cond" 12 4 hCo
+  rw [f0] at g0; rw [f5] at g5; rw [f16] at g16; rw [f12] at g12
+  have m0 := matchOp_gp _ wd "Rd" false o0 [.reg o1, .reg o2, .imm cond p] g0 h0
+  have m1 := matchOp_gp _ wd "Rn" false o1 [.reg o2, .imm cond p] g5 h1
+  have m2 := matchOp_gp _ wd "Rm" false o2 [.imm cond p] g16 h2
+  have m3 := matchOp_cond _ "cond" cond p [] hcond g12
+  simp only [describes, Form.matchesTemplate, t, hops, matchOps, m0, m1, m2, m3]
+  simp
+
+/-! ### ADD/SUB (immediate): Rd, Rn, imm12 at 10, sh at 22 -/
+
+theorem addsub_imm_fields (opc x sh imm rd rn mask value : BitVec 32)
+    (hc : opc &&& 0x007FFFFF#32 = 0#32) (hm : mask &&& 0x007FFFFF#32 = 0#32) (hv : (opc ||| (x <<< 31)) &&& mask = value)
+    (h0 : rd.ult 32#32 = true) (h1 : rn.ult 32#32 = true) (h2 : sh.ult 2#32 = true) (h3 : imm.ult 4096#32 = true) :
+    (opc ||| (x <<< 31) ||| (sh <<< 22) ||| (imm <<< 10) ||| (rn <<< 5) ||| (rd <<< 0)) &&& mask = value ∧
+    ((opc ||| (x <<< 31) ||| (sh <<< 22) ||| (imm <<< 10) ||| (rn <<< 5) ||| (rd <<< 0)) >>> 0) &&& 31#32 = rd ∧
+    ((opc ||| (x <<< 31) ||| (sh <<< 22) ||| (imm <<< 10) ||| (rn <<< 5) ||| (rd <<< 0)) >>> 5) &&& 31#32 = rn ∧
+    ((opc ||| (x <<< 31) ||| (sh <<< 22) ||| (imm <<< 10) ||| (rn <<< 5) ||| (rd <<< 0)) >>> 10) &&& 4095#32 = imm ∧
+    ((opc ||| (x <<< 31) ||| (sh <<< 22) ||| (imm <<< 10) ||| (rn <<< 5) ||| (rd <<< 0)) >>> 22) &&& 1#32 = sh := by
+  bv_decide
+
+def isAddSubImmForm (f : Form) (wd : GpW) (spd spn : Bool) (opcx : BitVec 32) : Bool :=
+  f.ops == [.gp wd "Rd" spd, .gp wd "Rn" spn, .addSubImm "immZ" "n"] &&
+  f.fields.filter (·.name == "Rd") == [⟨"Rd", [⟨0, 0, 5⟩]⟩] &&
+  f.fields.filter (·.name == "Rn") == [⟨"Rn", [⟨5, 0, 5⟩]⟩] &&
+  f.fields.filter (·.name == "immZ") == [⟨"immZ", [⟨10, 0, 12⟩]⟩] &&
+  f.fields.filter (·.name == "n") == [⟨"n", [⟨22, 0, 1⟩]⟩] &&
+  f.freeFields.isEmpty && decide (f.mask < 2 ^ 32) && decide (f.value < 2 ^ 32) &&
+  (BitVec.ofNat 32 f.mask &&& 0x007FFFFF#32 == 0#32) && (opcx &&& BitVec.ofNat 32 f.mask == BitVec.ofNat 32 f.value)
+
+/-- the operand tail of ADD/SUB (immediate) as the spec reads it: `#imm` alone, or `#imm, lsl #(0|12)` -/
+def addSubTailOk (field sh : Nat) (tail : List Operand) : Prop :=
+  match tail with
+  | [.imm v _] => v.toNat = field * (if sh == 1 then 4096 else 1)
+  | [.imm v _, .imm s ps] => ps = sopLSL ∧ (s.toNat = 0 ∨ s.toNat = 12) ∧ v.toNat * 2 ^ s.toNat = field * (if sh == 1 then 4096 else 1)
+  | _ => False
+
+theorem matchOp_addSubImm (c : Ctx) (field sh : Nat) (tail : List Operand)
+    (hi : c.get "immZ" = some field) (hs : c.get "n" = some sh) (ht : addSubTailOk field sh tail) :
+    matchOp c (.addSubImm "immZ" "n") tail = some [] := by
+  unfold addSubTailOk at ht
+  match tail, ht with
+  | [.imm v p], ht => simp [matchOp, hi, hs, ht]
+  | [.imm v p, .imm s ps], ⟨h1, h2, h3⟩ =>
+    simp only [matchOp, hi, hs]
+    rcases h2 with h2 | h2 <;> simp [h1, h2, h3] <;> simp [h2] at h3 <;> omega
+
+theorem addsub_imm_describes (f : Form) (wd : GpW) (spd spn : Bool) (opc x : BitVec 32) (o0 o1 : Reg) (field sh : Nat)
+    (tail : List Operand) (pc : BitVec 64)
+    (hf : isAddSubImmForm f wd spd spn (opc ||| (x <<< 31)) = true) (hc : opc &&& 0x007FFFFF#32 = 0#32)
+    (h0 : gpOk wd spd o0) (h1 : gpOk wd spn o1) (hfld : field < 4096) (hsh : sh < 2) (ht : addSubTailOk field sh tail) :
+    describes f (.reg o0 :: .reg o1 :: tail) pc
+      (opc ||| (x <<< 31) ||| (BitVec.ofNat 32 sh <<< 22) ||| (BitVec.ofNat 32 field <<< 10) |||
+       (BitVec.ofNat 32 (o1.id % 32) <<< 5) ||| (BitVec.ofNat 32 (o0.id % 32) <<< 0)) = true := by
+  simp only [isAddSubImmForm, Bool.and_eq_true, beq_iff_eq, decide_eq_true_eq] at hf
+  obtain ⟨⟨⟨⟨⟨⟨⟨⟨⟨hops, hRd⟩, hRn⟩, hIm⟩, hN⟩, _hfree⟩, hmlt⟩, hvlt⟩, hm⟩, hv⟩ := hf
+  have hu1 : (BitVec.ofNat 32 sh).ult 2#32 = true := by simp [BitVec.ult, BitVec.toNat_ofNat]; omega
+  have hu2 : (BitVec.ofNat 32 field).ult 4096#32 = true := by simp [BitVec.ult, BitVec.toNat_ofNat]; omega
+  obtain ⟨k1, k2, k3, k4, k5⟩ := addsub_imm_fields opc x (BitVec.ofNat 32 sh) (BitVec.ofNat 32 field) (BitVec.ofNat 32 (o0.id % 32))
+    (BitVec.ofNat 32 (o1.id % 32)) (BitVec.ofNat 32 f.mask) (BitVec.ofNat 32 f.value) hc hm hv (ofNat_mod32_ult _) (ofNat_mod32_ult _) hu1 hu2
+  generalize hw : (opc ||| (x <<< 31) ||| (BitVec.ofNat 32 sh <<< 22) ||| (BitVec.ofNat 32 field <<< 10) |||
+       (BitVec.ofNat 32 (o1.id % 32) <<< 5) ||| (BitVec.ofNat 32 (o0.id % 32) <<< 0)) = w at *
+  have t : w.toNat &&& f.mask = f.value := by
+    rw [toNat_and_mask w f.mask hmlt, k1]; simp [BitVec.toNat_ofNat, Nat.mod_eq_of_lt hvlt]
+  have f0 : (w.toNat >>> 0) % 2 ^ 5 = o0.id % 32 := by rw [toNat_field, k2, ofNat_mod32_toNat]
+  have f5 : (w.toNat >>> 5) % 2 ^ 5 = o1.id % 32 := by rw [toNat_field, k3, ofNat_mod32_toNat]
+  have f10 : (w.toNat >>> 10) % 2 ^ 12 = field := by
+    rw [toNat_fieldN w 10 12 (by decide), show (BitVec.ofNat 32 (2 ^ 12 - 1)) = 4095#32 from rfl, k4]
+    simp [BitVec.toNat_ofNat]; omega
+  have f22 : (w.toNat >>> 22) % 2 ^ 1 = sh := by
+    rw [toNat_fieldN w 22 1 (by decide), show (BitVec.ofNat 32 (2 ^ 1 - 1)) = 1#32 from rfl, k5]
+    simp [BitVec.toNat_ofNat]; omega
+  have g0 := ctx_get_single f.fields w.toNat pc f.name "Rd" 0 hRd
+  have g5 := ctx_get_single f.fields w.toNat pc f.name "Rn" 5 hRn
+  have g10 := ctx_get_one f.fields w.toNat pc f.name "immZ" 10 12 hIm
+  have g22 := ctx_get_one f.fields w.toNat pc f.name "n" 22 1 hN
+  rw [f0] at g0; rw [f5] at g5; rw [f10] at g10; rw [f22] at g22
+  have m0 := matchOp_gp _ wd "Rd" spd o0 (.reg o1 :: tail) g0 h0
+  have m1 := matchOp_gp _ wd "Rn" spn o1 tail g5 h1
+  have m2 := matchOp_addSubImm _ field sh tail g10 g22 ht
+  have hshape : (∃ v p, tail = [.imm v p]) ∨ (∃ v p s ps, tail = [.imm v p, .imm s ps]) := by
+    unfold addSubTailOk at ht
+    split at ht
+    · exact Or.inl ⟨_, _, rfl⟩
+    · exact Or.inr ⟨_, _, _, _, rfl⟩
+    · exact absurd ht (by simp)
+  rcases hshape with ⟨v, p, rfl⟩ | ⟨v, p, s, ps, rfl⟩
+  · simp only [describes, Form.matchesTemplate, t, hops, matchOps, m0, m1, m2]
+    simp
+  · simp only [describes, Form.matchesTemplate, t, hops, matchOps, m0, m1, m2]
+    simp
+
 end AsmjitVerif.C02
